@@ -240,14 +240,15 @@ def run(ctx: Ctx):
                     ctx.check(want in names, "request-response-pairing", f"generate_all_classes:{marker}typeof",
                               f"{marker}...) does not reference typeof({{{want}}}) (found {names})", P_CLASSES, js.lineno)
 
-    # ---- (3) verbatim wire data
+    # ---- (3) verbatim wire data: syntactic form of the rule, applied where the templates have the pinned shape; the
+    # folds (_fold_members, _fold_enums, _fold_method_constants) decide the same clause on the emitted text whatever
+    # the shape of the code
     gp = cm.functions.get("generate_property")
     if gp is None:
         raise AnalysisError(f"{P_CLASSES}: generate_property not found")
     ctx.fn("dotnet_classes.py:generate_property")
     prop_param = gp.args.args[0].arg
     hits = [fv for js in fstrings(gp) for fv in following_value(js, 'DataMember(Name = "')]
-    ctx.floor("DataMember templates", len(hits), 1)
     for fv in hits:
         ok = isinstance(fv.value, ast.Attribute) and fv.value.attr == "name" and dotted(fv.value.value) == prop_param \
             and fv.conversion == -1 and fv.format_spec is None
@@ -260,33 +261,114 @@ def run(ctx: Ctx):
         raise AnalysisError(f"{P_ENUMS}: generate_enum not found")
     ctx.fn("dotnet_enums.py:generate_enum")
     item_loops = [n for n in ast.walk(ge) if isinstance(n, ast.For) and isinstance(n.iter, ast.Attribute) and n.iter.attr == "values"]
-    if len(item_loops) != 1:
-        raise AnalysisError(f"{P_ENUMS}: expected one loop over enum values in generate_enum")
-    item = _targets(item_loops[0].target)[0]
-    enum_param = ge.args.args[0].arg
-    ctx.check(dotted(item_loops[0].iter) == f"{enum_param}.values", "verbatim-wire-data", "generate_enum:loop",
-              "enum members are not produced from <enum>.values", P_ENUMS, item_loops[0].lineno)
-    h1 = [fv for js in fstrings(item_loops[0]) for fv in following_value(js, 'EnumMember(Value = "')]
-    h2 = [fv for js in fstrings(item_loops[0]) for fv in following_value(js, " = ")]
-    ctx.floor("enum member templates", len(h1) + len(h2), 2)
-    for tag, fvs in (("EnumMember", h1), ("int-member", h2)):
-        for fv in fvs:
-            ok = isinstance(fv.value, ast.Attribute) and fv.value.attr == "value" and dotted(fv.value.value) == item \
-                and fv.conversion == -1
-            ctx.check(ok, "verbatim-wire-data", f"generate_enum:{tag}",
-                      f"{tag} interpolates `{ast.unparse(fv.value)}`, not {item}.value verbatim", P_ENUMS, fv.value.lineno)
+    if len(item_loops) == 1:
+        item = _targets(item_loops[0].target)[0]
+        h1 = [fv for js in fstrings(item_loops[0]) for fv in following_value(js, 'EnumMember(Value = "')]
+        h2 = [fv for js in fstrings(item_loops[0]) for fv in following_value(js, " = ")]
+        for tag, fvs in (("EnumMember", h1), ("int-member", h2)):
+            for fv in fvs:
+                ok = isinstance(fv.value, ast.Attribute) and fv.value.attr == "value" and dotted(fv.value.value) == item \
+                    and fv.conversion == -1
+                ctx.check(ok, "verbatim-wire-data", f"generate_enum:{tag}",
+                          f"{tag} interpolates `{ast.unparse(fv.value)}`, not {item}.value verbatim", P_ENUMS, fv.value.lineno)
     for fname in ("generate_code_for_request", "generate_code_for_notification"):
         fn = cm.functions.get(fname)
         if fn is None:
-            raise AnalysisError(f"{P_CLASSES}: {fname} not found")
+            continue
         ctx.fn(f"dotnet_classes.py:{fname}")
         par = fn.args.args[0].arg
         hv = [fv for js in fstrings(fn) for fv in following_value(js, ' { get; } = "')]
-        ctx.floor(f"{fname}: method constant template", len(hv), 1)
         for fv in hv:
             ok = isinstance(fv.value, ast.Attribute) and fv.value.attr == "method" and dotted(fv.value.value) == par
             ctx.check(ok, "verbatim-wire-data", f"{fname}:LSPMethods",
                       f"method constant interpolates `{ast.unparse(fv.value)}`, not {par}.method", P_CLASSES, fv.value.lineno)
+
+
+def _fold_enums(ctx: Ctx, idx):
+    """generate_enum evaluated (E5) on synthetic enumerations: the emitted members carry exactly the values given,
+    corner values included (empty string, '$/', dots, zero, negatives)."""
+    import re as _re
+    from .. import microeval
+    from ..microeval import Record, Raised
+    em = idx.get(P_ENUMS)
+    hm = idx.get("generator/plugins/dotnet/dotnet_helpers.py")
+    hit = microeval.Interp(hm.tree, name=hm.rel)
+    it = microeval.Interp(em.tree, name=P_ENUMS)
+    for nm, v in hit.globals.items():
+        it.globals.setdefault(nm, v)
+    it.globals.setdefault("NAMESPACE", "Ns")
+    ge = em.functions.get("generate_enum")
+
+    def enum(name, items):
+        return Record("Enum", {"name": name, "documentation": None, "since": None, "proposed": None, "deprecated": None,
+                               "supportsCustomValues": None, "type": Record("Type", {"kind": "base", "name": "string"}),
+                               "values": [Record("EnumItem", {"name": n, "value": v, "documentation": None, "since": None,
+                                                              "proposed": None, "deprecated": None}) for n, v in items]})
+    cases = {
+        "string": [("Empty", ""), ("QuickFix", "quickfix"), ("SourceFixAll", "source.fixAll"), ("Dollar", "$/x"), ("Upper", "UPPER")],
+        "integer": [("One", 1), ("Zero", 0), ("Negative", -1), ("Big", 2147483647)],
+    }
+    n = 0
+    for label, items in cases.items():
+        try:
+            lines = it.call(ge, [enum("SomeKind", items)])
+        except Raised as e:
+            raise AnalysisError(f"{P_ENUMS}: generate_enum raises {e.exc_name} when folded on a {label} enumeration")
+        text = "\n".join(x for x in lines if isinstance(x, str))
+        if label == "string":
+            got = _re.findall(r'EnumMember\(Value = "([^"]*)"\)', text)
+        else:
+            got = [int(x) for x in _re.findall(r"^\s*\w+ = (-?\d+),", text, _re.M)]
+        want = [v for _n, v in items]
+        n += 1
+        ctx.check(sorted(map(str, got)) == sorted(map(str, want)), "enum-values-verbatim", f"generate_enum:{label}",
+                  f"a {label} enumeration with the values {want} is emitted with the member values {got}", P_ENUMS, ge.lineno,
+                  sample={"enum": label, "values": got})
+    ctx.floor("enumeration kinds folded through generate_enum", n, 2)
+
+
+def _fold_method_constants(ctx: Ctx, idx):
+    """The LSPMethods class: generate_request_notification_methods evaluated (E5) on a synthetic spec; every method
+    string of every request and notification appears verbatim as the value of exactly one constant."""
+    import re as _re
+    from .. import microeval
+    from ..microeval import Record, Raised, ClassRef
+    cm = idx.get(P_CLASSES)
+    hm = idx.get("generator/plugins/dotnet/dotnet_helpers.py")
+    hit = microeval.Interp(hm.tree, name=hm.rel)
+    it = microeval.Interp(cm.tree, name=P_CLASSES)
+    for nm, v in hit.globals.items():
+        it.globals.setdefault(nm, v)
+    it.globals.setdefault("NAMESPACE", "Ns")
+    it.globals["get_doc"] = ("host", lambda *a, **k: [])
+    it.globals["generate_extras"] = ("host", lambda *a, **k: [])
+    it.globals["model"] = microeval.ModuleRef("model", attrs={"Enum": ("host", lambda **kw: Record("Enum", kw))})
+    fn = cm.functions.get("generate_request_notification_methods")
+    if fn is None:
+        raise AnalysisError(f"{P_CLASSES}: generate_request_notification_methods not found")
+    ctx.fn("dotnet_classes.py:generate_request_notification_methods")
+
+    def msg(m):
+        return Record("Message", {"method": m, "documentation": None, "since": None, "proposed": None, "deprecated": None,
+                                  "messageDirection": "both", "typeName": None})
+    reqs = ["textDocument/hover", "$/cancelRequestLike", "workspace/symbol", "shutdown"]
+    nots = ["$/setTrace", "initialized", "textDocument/didOpen", "$/progress"]
+    spec = Record("Spec", {"requests": [msg(m) for m in reqs], "notifications": [msg(m) for m in nots]})
+    captured = []
+    types = Record("TypeData", {"add_type_info": ("host", lambda t, name, lines: captured.append(lines))})
+    try:
+        it.call(fn, [spec, types])
+    except Raised as e:
+        raise AnalysisError(f"{P_CLASSES}: generate_request_notification_methods raises {e.exc_name} when folded")
+    text = "\n".join(x for ls in captured for x in ls if isinstance(x, str))
+    got = _re.findall(r'public static string (\w+) \{ get; \} = "([^"]*)";', text)
+    want = reqs + nots
+    ctx.check(sorted(v for _n, v in got) == sorted(want), "verbatim-wire-data", "LSPMethods:values",
+              f"for the methods {want} the LSPMethods constants hold {[v for _n, v in got]}", P_CLASSES, fn.lineno,
+              sample={"constants": got[:4]})
+    names = [n_ for n_, _v in got]
+    ctx.check(len(set(names)) == len(names), "verbatim-wire-data", "LSPMethods:names",
+              f"two methods share a constant name: {names}", P_CLASSES, fn.lineno)
 
 
 # ------------------------------------------------------------------------------------------------
@@ -478,6 +560,15 @@ def run(ctx: Ctx):  # noqa: F811
     _run_base(ctx)
     idx = Index(ctx.src, dirs=("generator/plugins/dotnet",))
     _fold_type_names(ctx, idx)
+    _fold_enums(ctx, idx)
+    _fold_method_constants(ctx, idx)
+    # the property quantifies over every metamodel handed to the plugin: nothing computed for one model may leak into
+    # the classes emitted for the next (lookup caches, memo decorators, module-level registries)
+    from ..genlint import cross_run_state
+    nstate, hits = cross_run_state(idx, "generator/plugins/dotnet/")
+    for rel, construct, msg, ln in hits:
+        ctx.fail("generator-no-cross-run-state", construct, msg, rel, ln)
+    ctx.ok("generator-no-cross-run-state", {"containers_examined": nstate})
     _fold_members(ctx, idx)
 
 
